@@ -27,6 +27,8 @@ def run_impl(line):
         if op == 'bits.oflist': return fb(Bits(unil(a[0]), unoi(a[1])))
         if op == 'bits.ofbytes': return fb(Bits(unhx(a[0]), unoi(a[1]), int(a[2])))
         if op == 'bits.ofbits': return fb(Bits(mkbits(a[0]), unoi(a[1])))
+        if op == 'bits.reload':
+            b = mkbits(a[0]); b.load(unhx(a[1]), int(a[2])); return fb(b)
         b = mkbits(a[0]) if a[0][0] == 'b' else None
         if op == 'bits.bit': return str(b.bit(int(a[1])))
         if op == 'bits.int':
@@ -81,6 +83,13 @@ def check_impl(line, res):
     if op == 'bits.revbyte':
         n = int(a[0])
         return None if res == str(int(format(n, '08b')[::-1], 2)) else bad('not the bit reversal')
+    if op == 'bits.reload':
+        exp = ref_load(unhx(a[1]), int(a[2]))
+        if exp == 'skip': return None
+        if exp is None: return None if res == 'ERR' else bad('length not a multiple of bitorder must be refused')
+        if res == 'ERR': return bad('unexpected exception')
+        s_, v_, got = res_seq(res)
+        return None if (s_ == len(exp) and got == exp and not (v_ >> s_)) else bad('load() on an existing vector: old contents show through')
     if op in ('bits.ofint', 'bits.oflist', 'bits.ofbytes', 'bits.ofbits'):
         if op == 'bits.ofint':
             v = abs(int(a[0])); n = unoi(a[1])
@@ -157,6 +166,9 @@ def value_lines(n, x):
 
 def bytes_lines(s, rng=None):
     l = len(s)
+    for prev in ('b0:0', 'b8:255', 'b32:2882343476', 'b%d:%d' % (8 * l + 8, (1 << (8 * l + 8)) - 1)):
+        for bo_ in (-1, 1, 0, 2, 4, 8):
+            yield 'bits.reload %s %s %d' % (prev, hx(s), bo_), 'bits.reload'
     orders = {-1, 1, 0, 2, 3, 4, 8, -2, -4} | {k for k in range(1, l + 1) if l % k == 0} | {l + 1}
     for bo_ in sorted(orders):
         for sz in (None, 8 * l, max(8 * l - 3, 0), 8 * l + 5, 13):
